@@ -792,7 +792,7 @@ ORACLE_MUTATORS = [
 
 
 def _mut_args(op, a, c):
-    if op == 'set_values':
+    if op == 'set_values' and not a:
         return {'v': [1000 + i for i in range(len(c.values))]}
     return dict(a)
 
@@ -912,6 +912,8 @@ def check_history(inp):
     for n, st in enumerate(inp['steps']):
         before = [snapshot(o) for o in live]
         a = copy.deepcopy(st['args'])
+        if st['on'] >= len(live) or a.get('c', 0) >= len(live) or a.get('j', 0) >= len(live):
+            continue            # an earlier derivation did not produce its object (changed implementation)
         if st['k'] == 'd':
             try:
                 res = apply_derive(live, st['on'], st['op'], a)
